@@ -9,8 +9,8 @@ def J(scn, bound, deadline=60, **kw):
 
 PLANS = {
     "C01": {
-        "quick": [J("pubflow", "p=1,f=1,s=1", 30), J("pubflow", "f=2", 60), J("pubflowvol", "f=1,s=1", 60), J("pubflowvol", "f=2", 60)],
-        "thorough": [J("pubflow", "p=2,f=2,s=2", 900), J("pubflowvol", "p=1,f=2,s=1", 400)],
+        "quick": [J("pubflow", "p=1,f=1,s=1", 30), J("pubflow", "f=2", 60), J("pubflowvol", "f=1,s=1", 60), J("pubflowvol", "f=2", 60), J("pubflowalias", "f=2", 40)],
+        "thorough": [J("pubflow", "p=2,f=2,s=2", 900), J("pubflowvol", "p=1,f=2,s=1", 400), J("pubflowalias", "p=1,f=2,s=1", 400)],
     },
 }
 
@@ -111,7 +111,7 @@ ASSUMPTIONS = {
     "*": [
         "the simulated Dialer, net.Conn, Persistence and reference broker stand for the real environment; their answers are the explored alphabet",
         "interleavings are explored at synchronisation operations (auto-inserted gates) and environment calls; code between two gates is assumed race free (separate free-running -race pass)",
-        "Persistence.Load returns a private copy and a failing operation has no effect",
+        "a failing Persistence operation has no effect; Load returns a private copy except in the pubflowalias scenario (the store's own memory)",
         "go1.26.8 with testing/synctest runs the library; the baseline suite runs with the default toolchain",
     ],
 }
